@@ -149,8 +149,9 @@ SemVar(name) ==     \* ordered, so that a variant can be named by its index
                            <<"D", "E", "U", "T", "D", "E", "F", "F", "X", "X", "X", "X">>,
                            <<"d", "e", "u", "t", "d", "e", "f", "f">>, <<"D", "E", "U", "1", "D", "E", "F", "F">>,
                            <<"D", "E", "U", "T", "D", "E", "2", "A">> >>
-    [] name = "AMT"  -> << <<"1", ",">>, <<"a", "b", "c">>, <<>> >>
-    [] name = "AMT0" -> << <<"1", ",">>, <<"a", "b", "c">>, <<>>, <<"0", ",">>, <<"0", ",", "0", "0">>, <<"0", ",", "5">> >>
+    [] name = "AMT"  -> << <<"1", ",">>, <<"a", "b", "c">>, <<>>, <<",", "5">>, <<"1", ",", "2", ",", "3">> >>
+    [] name = "AMT0" -> << <<"1", ",">>, <<"a", "b", "c">>, <<>>, <<"0", ",">>, <<"0", ",", "0", "0">>, <<"0", ",", "5">>,
+                           <<",", "5">> >>
 
 RECURSIVE Typ(_), TypSeq(_, _), Vars(_), GenSeq(_, _, _), VarsSeq(_, _)
 TypSeq(cs, k) == IF k > Len(cs) THEN <<>> ELSE Typ(cs[k]) \o TypSeq(cs, k + 1)
